@@ -29,11 +29,18 @@ RUNS = {"quick": 4000, "thorough": 60000}
 BUDGET_S = {"quick": 90, "thorough": 1500}
 RULE = ("each evaluation is one parse of the undamaged or the damaged stored chart with one "
         "selection. Distinct = distinct (file text, selection) digest; non-trivial = the "
-        "selection is not None or the file is the damaged one")
+        "selection is not None or the file is the damaged one. The reference observation comes "
+        "from a forked pristine process; nothing is parsed in the run process before the clients "
+        "start (cold start); 12 % of the selecting operations use a selection object that raises "
+        "on its k-th access")
 ASSUMPTIONS = [
     "damage is confined to the byte range of one instrument section body and never contains a "
     "bare (unindented) brace or header line; indented ones are body content in this format",
-    "the reference is the unrestricted parse of the undamaged file by the real parser",
+    "the reference is the unrestricted parse of the undamaged file by the real parser in a "
+    "process forked from the pristine image; the damaged section's own outcome is compared with "
+    "its outcome as the only instrument section of the file",
+    "an operation whose selection object raised may fail in any way; a chart it returns is judged "
+    "like any other (may fail, never wrong data)",
     "selections and damage are sampled",
 ]
 
